@@ -7,7 +7,10 @@
 (*                                                                                          *)
 (* Client operations (Prog[p] is a sequence of records):                                      *)
 (*   [op |-> "set", v]      SetValue(v)                                                       *)
-(*   [op |-> "swap", d]     SwapValue(func(x) { return x + d })                               *)
+(*   [op |-> "swap", d, long]  SwapValue(func(x) { return x + d }); long: the callback stays   *)
+(*                          inside the critical section (Broadcast.mtx really held: no other  *)
+(*                          critical section of the cell can run) until the environment lets  *)
+(*                          it go (LongEnter / LongExit)                                      *)
 (*   [op |-> "swapnil"]     SwapValue(nil)            [op |-> "get"]   GetValue()             *)
 (*   [op |-> "wait", kind, old, k, ve, c, fires]                                              *)
 (*        kind: value | change | empty | valid | validnil (WaitValueWithValidator(nil))       *)
@@ -26,13 +29,14 @@ Id(p, j) == p * 100 + j
 
 VARIABLES
     val,      \* CContainer.val
+    mtx,      \* Broadcast.mtx: 0 free; p > 0: held by the long SwapValue callback of process p
     wch,      \* per process: the wait channel sampled by its waiter loop
     pc, ip, ctxc,
     ech,      \* per process: items buffered in the error channel of the call in flight
     ecl,      \* per process: that channel is closed
     fired     \* per process: deliveries already made during the call in flight
 
-xvars == <<val, wch, pc, ip, ctxc, ech, ecl, fired>>
+xvars == <<val, mtx, wch, pc, ip, ctxc, ech, ecl, fired>>
 vars == <<xvars, pvars>>
 
 Op(p) == Prog[p][ip[p]]
@@ -42,6 +46,7 @@ Done(p) == ip[p] > Len(Prog[p])
 Init ==
     /\ ps = FInit(PS0, InitVal, M)
     /\ val = InitVal
+    /\ mtx = 0
     /\ wch = [p \in Procs |-> "none"]
     /\ pc = [p \in Procs |-> "idle"]
     /\ ip = [p \in Procs |-> 1]
@@ -71,12 +76,15 @@ Call(p) ==
     /\ ecl' = [ecl EXCEPT ![p] = FALSE]
     /\ fired' = [fired EXCEPT ![p] = {}]
     /\ ps' = FCall(ps, CurId(p), Op(p))
-    /\ UNCHANGED <<val, wch, ip>>
+    /\ UNCHANGED <<val, mtx, wch, ip>>
 
-\* the single critical section of GetValue / SetValue / SwapValue (ccontainer.go:33-68)
+IsLong(p) == Op(p).op = "swap" /\ Op(p).long
+
+\* the single critical section of GetValue / SetValue / SwapValue (ccontainer.go:33-68); every
+\* critical section is a Broadcast.HoldLock: it can only start while the mutex is free
 WriteCS(p) ==
     /\ Gate
-    /\ pc[p] = "w"
+    /\ pc[p] = "w" /\ mtx = 0 /\ ~IsLong(p)
     /\ LET o == Op(p) IN
        CASE o.op = "set" ->
               /\ IF ~Compare(val, o.v)
@@ -93,6 +101,30 @@ WriteCS(p) ==
               /\ ps' = FRet(ps, CurId(p), "ok", val)
               /\ UNCHANGED <<val, wch>>
     /\ pc' = [pc EXCEPT ![p] = "idle"] /\ Advance(p)
+    /\ UNCHANGED <<mtx, ctxc, ech, ecl, fired>>
+
+\* SwapValue with a long callback: the critical section starts (HoldLock, val read, callback
+\* entered) and stays open
+LongEnter(p) ==
+    /\ Gate
+    /\ pc[p] = "w" /\ mtx = 0 /\ IsLong(p)
+    /\ mtx' = p
+    /\ pc' = [pc EXCEPT ![p] = "inlong"]
+    /\ ps' = FSwapIn(ps, CurId(p), val)
+    /\ UNCHANGED <<val, wch, ip, ctxc, ech, ecl, fired>>
+
+\* environment: the callback returns; the rest of the critical section (compare, store,
+\* broadcast), the unlock and the return of the call
+LongExit(p) ==
+    /\ Gate
+    /\ pc[p] = "inlong"
+    /\ LET out == val + Op(p).d IN
+       /\ IF ~Compare(val, out)
+          THEN val' = out /\ wch' = Bcast(wch)
+          ELSE UNCHANGED <<val, wch>>
+       /\ ps' = FRet(FSwapCb(ps, CurId(p), val, out), CurId(p), "ok", out)
+    /\ mtx' = 0
+    /\ pc' = [pc EXCEPT ![p] = "idle"] /\ Advance(p)
     /\ UNCHANGED <<ctxc, ech, ecl, fired>>
 
 Return(p, s, res, v) ==
@@ -104,7 +136,7 @@ Return(p, s, res, v) ==
 \* one section) followed by the validation outside the lock (:87-98)
 SampleCS(p) ==
     /\ Gate
-    /\ pc[p] = "cs"
+    /\ pc[p] = "cs" /\ mtx = 0
     /\ LET o == Op(p)
            id == CurId(p)
            vres == IF o.kind = "valid"
@@ -117,19 +149,19 @@ SampleCS(p) ==
                              /\ pc' = [pc EXCEPT ![p] = "sel"]
                              /\ ps' = s1
                              /\ UNCHANGED ip
-    /\ UNCHANGED <<val, ctxc, ech, ecl, fired>>
+    /\ UNCHANGED <<val, mtx, ctxc, ech, ecl, fired>>
 
 \* select: the wait channel fired
 Wake(p) ==
     /\ pc[p] = "sel" /\ wch[p] = "closed"
     /\ pc' = [pc EXCEPT ![p] = "cs"]
-    /\ UNCHANGED <<val, wch, ip, ctxc, ech, ecl, fired, ps>>
+    /\ UNCHANGED <<val, mtx, wch, ip, ctxc, ech, ecl, fired, ps>>
 
 \* select: ctx.Done() fired -> ctx.Err()
 WakeCtx(p) ==
     /\ pc[p] = "sel" /\ ctxc[p]
     /\ Return(p, ps, "canceled", 0)
-    /\ UNCHANGED <<val, ctxc, ech, ecl, fired>>
+    /\ UNCHANGED <<val, mtx, ctxc, ech, ecl, fired>>
 
 \* select: the error channel is ready (ccontainer.go:103-111): a non-nil error is returned, a
 \* nil error makes the waiter loop again, a closed channel is treated as context canceled
@@ -143,7 +175,7 @@ WakeErr(p) ==
                     /\ UNCHANGED <<wch, ip, ps>>
        ELSE /\ Return(p, ps, "canceled", 0)
             /\ UNCHANGED ech
-    /\ UNCHANGED <<val, ctxc, ecl, fired>>
+    /\ UNCHANGED <<val, mtx, ctxc, ecl, fired>>
 
 \* environment: cancellation and error-channel deliveries, at any point of the call
 InWait(p) == pc[p] \in {"cs", "sel"}
@@ -153,7 +185,7 @@ Cancel(p) ==
     /\ InWait(p) /\ Op(p).c /\ ~ctxc[p]
     /\ ctxc' = [ctxc EXCEPT ![p] = TRUE]
     /\ ps' = FCancel(ps, CurId(p))
-    /\ UNCHANGED <<val, wch, pc, ip, ech, ecl, fired>>
+    /\ UNCHANGED <<val, mtx, wch, pc, ip, ech, ecl, fired>>
 
 Fire(p, what) ==
     /\ Gate
@@ -164,7 +196,7 @@ Fire(p, what) ==
        THEN ecl' = [ecl EXCEPT ![p] = TRUE] /\ UNCHANGED ech
        ELSE ech' = [ech EXCEPT ![p] = Append(@, what)] /\ UNCHANGED ecl
     /\ ps' = FFire(ps, CurId(p), what)
-    /\ UNCHANGED <<val, wch, pc, ip, ctxc>>
+    /\ UNCHANGED <<val, mtx, wch, pc, ip, ctxc>>
 
 FireErr(p) == Fire(p, "err")
 FireNil(p) == Fire(p, "nil")
@@ -173,28 +205,41 @@ FireClose(p) == Fire(p, "close")
 -----------------------------------------------------------------------------
 Next ==
     \E p \in Procs :
-        \/ Call(p) \/ Cancel(p) \/ FireErr(p) \/ FireNil(p) \/ FireClose(p)
-        \/ WriteCS(p) \/ SampleCS(p)
+        \/ Call(p) \/ Cancel(p) \/ FireErr(p) \/ FireNil(p) \/ FireClose(p) \/ LongExit(p)
+        \/ WriteCS(p) \/ SampleCS(p) \/ LongEnter(p)
         \/ Wake(p) \/ WakeCtx(p) \/ WakeErr(p)
 
 Spec == Init /\ [][Next]_vars
 
-LibQuiet == (\A p \in Procs : pc[p] \in {"idle", "sel"}) /\ ~WakeAny
+\* (a callback that stays inside its critical section is not a library step waiting to be taken)
+LibQuiet == (\A p \in Procs : pc[p] \in {"idle", "sel", "inlong"}) /\ ~WakeAny
 
 -----------------------------------------------------------------------------
 (* Invariants *)
 TypeOK ==
     /\ val \in Nat
+    /\ mtx \in {0} \cup Procs
     /\ \A p \in Procs : wch[p] \in {"none", "cur", "closed"}
 
 \* the monitor's idea of the cell agrees with the implementation's field
-CellAgree == val \in ps.cell /\ \A v \in ps.cell : Eq(M, v, val)
+\* (the spec returns a call in the step of its critical section, so the configuration in which
+\* no call in flight has taken effect is the real one.  The monitor may keep others: it does not
+\* know that SetValue / GetValue take effect in the step of their return)
+CellAgree == /\ \E c \in ps.cfgs : c.v = val /\ c.lin = {}
+             /\ Hidden(ps) = {} => \A c \in ps.cfgs : c.lin = {}
+
+\* the mutex is held exactly while a long callback is inside
+MtxAgree == \A p \in Procs : (pc[p] = "inlong") = (mtx = p)
 
 \* a waiter in its select holds the current channel unless the value changed since it sampled
 NoLostWake == \A p \in Procs : pc[p] = "sel" => wch[p] \in {"cur", "closed"}
 
 \* C15 at quiescent points, through the monitor's own definition
-QuietInv == LibQuiet => QuietBad(ps, BlockedIds) = {}
+\* (as the driver does it: where no long callback holds the mutex the controller first reads the
+\* cell -- an ordinary GetValue, id 0 -- which tells the monitor the real content)
+Probe == FRet(FCall(ps, 0, [op |-> "get"]), 0, "ok", val)
+QuietInv == LibQuiet => /\ QuietBad(IF mtx = 0 THEN Probe ELSE ps, BlockedIds) = {}
+                        /\ mtx = 0 => Probe.bad = {}
 
 ModelSafe == Safe_C15 /\ NoHarnessError
 =============================================================================
